@@ -300,6 +300,24 @@ pub fn functor_goal(args: &[T], s: &Sub) -> Result<Option<Sub>, String> {
     Ok(Some(s2))
 }
 
+/// Stands for an unfilled `%s` marker in reference output.
+pub const UNFILLED: char = '\u{1}';
+
+/// Does the engine's output equal the reference's, where each UNFILLED in the
+/// reference may be the empty string or a literal `%s`?
+pub fn out_matches(reference: &str, got: &str) -> bool {
+    match reference.find(UNFILLED) {
+        None => reference == got,
+        Some(i) => {
+            let (head, rest) = (&reference[..i], &reference[i + UNFILLED.len_utf8()..]);
+            match got.strip_prefix(head) {
+                None => false,
+                Some(g) => out_matches(rest, g) || g.strip_prefix("%s").map_or(false, |g2| out_matches(rest, g2)),
+            }
+        }
+    }
+}
+
 /// Text written by `print(args…)` (C04).
 pub fn print_text(args: &[T], s: &Sub) -> Result<String, String> {
     if args.is_empty() {
@@ -324,14 +342,22 @@ pub fn print_text(args: &[T], s: &Sub) -> Result<String, String> {
     if markers == 0 {
         return Ok(texts.concat());
     }
-    if markers != texts.len() - 1 {
-        return Err("print: number of %s differs from number of arguments".into());
+    if markers < texts.len() - 1 {
+        // more values than markers: the statement does not say where they go
+        return Err("print: fewer %s than arguments".into());
     }
+    // more markers than values: every value replaces a marker and the text of the
+    // format is kept; what stands for an unfilled marker is not specified (UNFILLED
+    // matches nothing or the marker itself, see `out_matches`)
     let mut out = String::new();
     for (i, p) in parts.iter().enumerate() {
         out.push_str(p);
         if i < markers {
-            out.push_str(&texts[i + 1]);
+            if i + 1 < texts.len() {
+                out.push_str(&texts[i + 1]);
+            } else {
+                out.push(UNFILLED);
+            }
         }
     }
     Ok(out)
